@@ -52,6 +52,8 @@ fn main() {
         "c06" => vmon::c06::run(&p),
         "c07" => vmon::lc::run_c07(&p),
         "c08" => vmon::lc::run_c08(&p),
+        "c09" => vmon::c09::run(&p),
+        "c10" => vmon::c10::run(&p),
         _ => {
             eprintln!("unknown property {}", prop);
             std::process::exit(2)
